@@ -94,10 +94,12 @@ fn gen_op_kind(rng: &mut Rng, n_objs: usize, allow_abort: bool) -> OpKind {
 pub fn gen_writer_plan(rng: &mut Rng) -> WriterPlan {
   WriterPlan {
     fail_at: if rng.chance(400) { Some(rng.below(30)) } else { None },
-    fail_kind: match rng.below(4) {
+    fail_kind: match rng.below(6) {
       0 => crate::spec::FailKind::BrokenPipe,
       1 => crate::spec::FailKind::PermissionDenied,
       2 => crate::spec::FailKind::Other,
+      3 => crate::spec::FailKind::WouldBlock,
+      4 => crate::spec::FailKind::TimedOut,
       _ => crate::spec::FailKind::StorageFull,
     },
     max_chunk: if rng.chance(500) { 1 + rng.below(5) as u32 } else { 0 },
